@@ -527,6 +527,10 @@ class Evaluator:
                 fv = None
                 if isinstance(val, Agg):
                     fv = val.fields.get(s["f"]) if s["f"] in val.fields else val.fields.get(str(s["idx"]))
+                elif isinstance(val, tuple) and val and val[0] in ("match", "cases", "array", "closure"):
+                    # a tagged internal value (unresolved match, case list, array, closure) is not a Rust tuple:
+                    # destructuring it would pick the tag/scrutinee instead of a component
+                    fv = None
                 elif isinstance(val, tuple) and s["idx"] < len(val):
                     fv = val[s["idx"]]
                 if fv is None:
